@@ -11,6 +11,15 @@ JSON_TB = [
 ]
 
 PROPS = {
+    "C09": {
+        "claim": "Given only valid(pub sk)(sign sk) (functional correctness of the primitive, an explicit hypothesis), a block signed by signers with pairwise distinct ids verifies against exactly their keys with threshold = number of signers, for every order of signatures and keys (constructor, builder's sorted map, after the wire) and every hash-map order; accepted blocks only count values the primitive accepts; signature values survive hex. Lean theorems for all signer lists and key types; on the real code: all schemes, 1-4 signers, both construction paths, three JSON layouts, then other keys, same material under the other scheme, and single-bit flips.",
+        "level_note": "Trusted: Lean kernel; ring (the negative clauses are sampled, not proved); metadata round trip = C16; same signed text at sign and verify sites = C11.",
+        "technique": 'Lean 4 theorems about an executable model + model/implementation correspondence check (differential run with property oracle)',
+        "rule": "cases = generated layouts/links x 1-4 signers of every scheme x {Metablock::new, MetablockBuilder} x {compact, pretty, JsonPretty}; ops = vblock with constructed validity for the positive case and each other-key negative; distinct = distinct op; all non-trivial (reach the signature primitive)",
+        "trusted_base": ["ring sign/verify: hypothesis hsv for the positive direction; negatives sampled"],
+        "partial": ["'does not verify under another key / after a bit flip / under another scheme' are statements about ring: sampled on every case, not proved"],
+        "assumptions": COMMON_ASSUME,
+    },
     "C10": {
         "claim": 'Order-insensitivity (deep member permutations), parse-back by a strict JSON reader, injectivity, sortedness, exact integers and rejection of non-integers are Lean theorems over all JSON values (nested-inductive induction, no size bound); model tied to Json::canonicalize by a differential run and oracles (parse-back with serde_json, re-spelled documents).',
         "level_note": 'Trusted: Lean kernel; hand-written model of convert/write; serde_json escaping and number classification as library facts (validated differentially); serde_json text reader only sampled.',
